@@ -1,2 +1,393 @@
+"""kdtree.py + aabb.py (+ geometry.norm/distance shapes) -> coq/theories/C11/Gen.v
+
+Extracted (every one is used by Model.v and mentioned by the theorems):
+  __init__        leaf test `leaf.size <= max_leaf_size`, root axis, axis cycling `(leaf.split_axis + 1)%self.dim`,
+                  the two child boxes (which bound of the parent box is overwritten by the split value)
+  _split_points   split predicate `pts_ax <= pivot`, the degenerate-split test, `half`, position of the rank pivot
+  query           eviction test `n_found>k`, the 'k candidates held' guard, the prune predicate, result order
+  query_radius    prune predicate, keep predicate
+  AABB.distance   per-coordinate excess `maximum(maximum(mini - pt, pt - maxi), 0.)`
+Everything around them (loop nests, call plumbing) is checked to have exactly the recognised shape; anything else
+raises TranslationError (the tie to the source is then broken).
+"""
+import ast
+
+from . import common as T
+from ..core import TranslationError
+
+KD = "mouette/spatial/kdtree.py"
+AB = "mouette/geometry/aabb.py"
+GE = "mouette/geometry/geometry.py"
+
+
+def u(node):
+    return ast.unparse(node)
+
+
+class Expr:
+    """Tiny typed expression compiler.  env maps the unparsed text of a Python sub-expression to (coq term, type)
+    with type in {'nat', 'Z', 'ext', 'bool'}."""
+
+    def __init__(self, rel, env):
+        self.rel = rel
+        self.env = env
+
+    def term(self, e):
+        key = u(e)
+        if key in self.env:
+            return self.env[key]
+        if isinstance(e, ast.Constant) and isinstance(e.value, (int, float)) and not isinstance(e.value, bool):
+            if float(e.value) != int(e.value) or e.value < 0:
+                T.fail(self.rel, e, "unsupported numeric literal")
+            return (str(int(e.value)), "lit")
+        if isinstance(e, ast.BinOp):
+            a, ta = self.term(e.left)
+            b, tb = self.term(e.right)
+            ty = self.unify(e, ta, tb)
+            if ty == "mixed":
+                if isinstance(e.op, ast.Sub) and ta == "ext" and tb == "Z":
+                    return ("(esub_ez %s %s)" % (a, b), "ext")
+                if isinstance(e.op, ast.Sub) and ta == "Z" and tb == "ext":
+                    return ("(esub_ze %s %s)" % (a, b), "ext")
+                T.fail(self.rel, e, "unsupported mixed arithmetic")
+            a, b = self.lit(a, ta, ty), self.lit(b, tb, ty)
+            if ty == "nat":
+                op = {ast.Add: "(%s + %s)%%nat", ast.Sub: "(%s - %s)%%nat", ast.Mult: "(%s * %s)%%nat",
+                      ast.FloorDiv: "(Nat.div %s %s)", ast.Mod: "(Nat.modulo %s %s)"}.get(type(e.op))
+            elif ty == "Z":
+                op = {ast.Add: "(%s + %s)%%Z", ast.Sub: "(%s - %s)%%Z", ast.Mult: "(%s * %s)%%Z",
+                      ast.FloorDiv: "(Z.div %s %s)", ast.Mod: "(Z.modulo %s %s)"}.get(type(e.op))
+            else:
+                op = None
+            if op is None:
+                T.fail(self.rel, e, "unsupported arithmetic operator for type %s" % ty)
+            return (op % (a, b), ty)
+        if isinstance(e, ast.Call) and T.dotted(e.func) in ("np.maximum", "numpy.maximum") and len(e.args) == 2 and not e.keywords:
+            a, ta = self.term(e.args[0])
+            b, tb = self.term(e.args[1])
+            if "ext" not in (ta, tb):
+                T.fail(self.rel, e, "np.maximum on non-extended operands")
+            return ("(emax %s %s)" % (self.lit(a, ta, "ext"), self.lit(b, tb, "ext")), "ext")
+        T.fail(self.rel, e, "expression outside the recognised subset")
+
+    def unify(self, e, ta, tb):
+        if ta == "lit" and tb == "lit":
+            T.fail(self.rel, e, "constant expression")
+        if ta == "lit":
+            return tb
+        if tb == "lit":
+            return ta
+        if ta == tb:
+            return ta
+        if {ta, tb} == {"ext", "Z"}:
+            return "mixed"
+        T.fail(self.rel, e, "operands of different types %s/%s" % (ta, tb))
+
+    def lit(self, s, ty, want):
+        if ty != "lit":
+            return s
+        return {"nat": "%s%%nat" % s, "Z": "%s%%Z" % s, "ext": "(Fin %s)" % s}[want]
+
+    def boolean(self, e):
+        if isinstance(e, ast.BoolOp):
+            parts = [self.boolean(v) for v in e.values]
+            op = " && " if isinstance(e.op, ast.And) else " || "
+            return "(" + op.join(parts) + ")"
+        if isinstance(e, ast.UnaryOp) and isinstance(e.op, ast.Not):
+            return "(negb %s)" % self.boolean(e.operand)
+        if isinstance(e, ast.Compare):
+            if len(e.ops) != 1:
+                T.fail(self.rel, e, "chained comparison")
+            a, ta = self.term(e.left)
+            b, tb = self.term(e.comparators[0])
+            ty = self.unify(e, ta, tb)
+            if ty == "mixed":
+                # Z against ext: inject the finite side
+                a = "(Fin %s)" % a if ta == "Z" else a
+                b = "(Fin %s)" % b if tb == "Z" else b
+                ty = "ext"
+            a, b = self.lit(a, ta, ty), self.lit(b, tb, ty)
+            pre = {"nat": ("Nat.leb", "Nat.ltb", "Nat.eqb"), "Z": ("Z.leb", "Z.ltb", "Z.eqb"),
+                   "ext": ("eleb", "eltb", "eeqb")}.get(ty)
+            if pre is None:
+                T.fail(self.rel, e, "comparison on type %s" % ty)
+            le, lt, eq = pre
+            o = type(e.ops[0])
+            if o is ast.LtE:
+                return "(%s %s %s)" % (le, a, b)
+            if o is ast.Lt:
+                return "(%s %s %s)" % (lt, a, b)
+            if o is ast.GtE:
+                return "(%s %s %s)" % (le, b, a)
+            if o is ast.Gt:
+                return "(%s %s %s)" % (lt, b, a)
+            if o is ast.Eq:
+                return "(%s %s %s)" % (eq, a, b)
+            if o is ast.NotEq:
+                return "(negb (%s %s %s))" % (eq, a, b)
+            T.fail(self.rel, e, "unsupported comparison operator")
+        key = u(e)
+        if key in self.env and self.env[key][1] == "bool":
+            return self.env[key][0]
+        T.fail(self.rel, e, "boolean expression outside the recognised subset")
+
+
+def expect(cond, rel, node, msg):
+    if not cond:
+        T.fail(rel, node, msg)
+
+
+def is_call(e, name, nargs=None):
+    return isinstance(e, ast.Call) and T.dotted(e.func) == name and (nargs is None or len(e.args) == nargs)
+
+
+def assign_to(st, name):
+    return isinstance(st, ast.Assign) and len(st.targets) == 1 and u(st.targets[0]) == name
+
+
 def gen():
-    raise NotImplementedError
+    parts = []
+    out = []
+    src, tree = T.load(KD)
+    kd = T.find_def(tree, "KDTree", KD)
+
+    # ================================================================== __init__
+    fn = T.find_def(tree, "KDTree.__init__", KD)
+    parts.append(("KDTree.__init__", T.sha(src, fn)))
+    params = [a.arg for a in fn.args.args]
+    expect(params == ["self", "points", "max_leaf_size", "strategy"], KD, fn, "__init__ signature changed")
+    body = T.body_nodoc(fn)
+    # root = self._new_leaf(<axis>, None, np.arange(self.n_pts)); root.bb = AABB.infinite(self.dim)
+    roots = [s for s in body if assign_to(s, "root")]
+    expect(len(roots) == 1 and is_call(roots[0].value, "self._new_leaf", 3), KD, fn, "root leaf creation not recognised")
+    ra = roots[0].value.args
+    expect(isinstance(ra[0], ast.Constant) and isinstance(ra[0].value, int) and ra[0].value >= 0
+           and u(ra[2]) == "np.arange(self.n_pts)", KD, roots[0], "root is not _new_leaf(<int>, None, np.arange(self.n_pts))")
+    root_axis = ra[0].value
+    expect(any(assign_to(s, "root.bb") and u(s.value) == "AABB.infinite(self.dim)" for s in body), KD, fn,
+           "root.bb = AABB.infinite(self.dim) not found")
+    expect(any(u(s) == "self.n_pts, self.dim = points.shape" for s in body), KD, fn, "self.n_pts, self.dim = points.shape not found")
+    expect(any(u(s) == "queue = deque()" for s in body) and any(u(s) == "queue.append(root)" for s in body), KD, fn,
+           "queue initialisation not recognised")
+    loops = [s for s in body if isinstance(s, ast.While)]
+    expect(len(loops) == 1 and u(loops[0].test) == "len(queue) > 0" and not loops[0].orelse, KD, fn, "build loop not `while len(queue)>0`")
+    lb = loops[0].body
+    expect(len(lb) == 2 and u(lb[0]) == "leaf = queue.popleft()" and isinstance(lb[1], ast.If), KD, loops[0],
+           "build loop body is not `leaf = queue.popleft(); if ...: ... else: ...`")
+    iff = lb[1]
+    ex = Expr(KD, {"leaf.size": ("size", "nat"), "max_leaf_size": ("max_leaf_size", "nat")})
+    leaf_ok = ex.boolean(iff.test)
+    expect(len(iff.body) == 1 and u(iff.body[0]) == "self.nodes.append(leaf)", KD, iff, "leaf branch is not `self.nodes.append(leaf)`")
+    eb = iff.orelse
+    expect(len(eb) == 14, KD, iff, "split branch has %d statements, expected 14" % len(eb))
+    expect(u(eb[0]) == "(split_value, pts_less, pts_more) = self._split_points(leaf.points, leaf.split_axis)"
+           or u(eb[0]) == "split_value, pts_less, pts_more = self._split_points(leaf.points, leaf.split_axis)", KD, eb[0],
+           "call of _split_points not recognised")
+    expect(u(eb[1]) == "node = KDTree.Node(leaf.id, leaf.split_axis, parent=leaf.parent, bb=leaf.bb, split_value=split_value)",
+           KD, eb[1], "Node(...) construction not recognised")
+    axes = []
+    for st, nm, pts in ((eb[2], "leaf_less", "pts_less"), (eb[3], "leaf_more", "pts_more")):
+        expect(assign_to(st, nm) and is_call(st.value, "self._new_leaf", 3) and u(st.value.args[1]) == "leaf.id"
+               and u(st.value.args[2]) == pts, KD, st, "%s = self._new_leaf(<axis>, leaf.id, %s) not recognised" % (nm, pts))
+        axes.append(st.value.args[0])
+    expect(u(axes[0]) == u(axes[1]), KD, eb[3], "the two children get different axes")
+    ex = Expr(KD, {"leaf.split_axis": ("axis", "nat"), "self.dim": ("dim", "nat")})
+    next_axis, ty = ex.term(axes[0])
+    expect(ty == "nat", KD, axes[0], "axis expression is not an integer expression")
+    expect(u(eb[4]) in ("(node.left, node.right) = (leaf_less.id, leaf_more.id)", "node.left, node.right = (leaf_less.id, leaf_more.id)",
+                        "node.left, node.right = leaf_less.id, leaf_more.id"), KD, eb[4], "node.left, node.right assignment not recognised")
+    # boxes: copies of one bound of the parent with [leaf.split_axis] = split_value
+    copies = {}
+    for a, b in ((eb[5], eb[6]), (eb[7], eb[8])):
+        expect(isinstance(a, ast.Assign) and isinstance(a.targets[0], ast.Name) and is_call(a.value, "np.copy", 1)
+               and u(a.value.args[0]) in ("leaf.bb.mini", "leaf.bb.maxi"), KD, a, "box bound copy not recognised")
+        nm = a.targets[0].id
+        expect(u(b) == "%s[leaf.split_axis] = split_value" % nm, KD, b, "box bound update not `%s[leaf.split_axis] = split_value`" % nm)
+        which = "lo" if u(a.value.args[0]) == "leaf.bb.mini" else "hi"
+        copies[nm] = "(upd (%s b) axis (Fin sv))" % which
+    boxes = {}
+    for st, nm in ((eb[9], "leaf_less"), (eb[10], "leaf_more")):
+        expect(assign_to(st, nm + ".bb") and is_call(st.value, "AABB", 2) and not st.value.keywords, KD, st, "%s.bb = AABB(.., ..) not recognised" % nm)
+        sides = []
+        for arg in st.value.args:
+            k = u(arg)
+            if k == "leaf.bb.mini":
+                sides.append("(lo b)")
+            elif k == "leaf.bb.maxi":
+                sides.append("(hi b)")
+            elif k in copies:
+                sides.append(copies[k])
+            else:
+                T.fail(KD, arg, "box argument not recognised")
+        boxes[nm] = "mkbox %s %s" % tuple(sides)
+    expect([u(s) for s in eb[11:14]] == ["self.nodes.append(node)", "queue.append(leaf_less)", "queue.append(leaf_more)"], KD, eb[11],
+           "end of the split branch not `self.nodes.append(node); queue.append(leaf_less); queue.append(leaf_more)`")
+    # _new_leaf
+    nl = T.find_def(tree, "KDTree._new_leaf", KD)
+    parts.append(("KDTree._new_leaf", T.sha(src, nl)))
+    expect([u(s) for s in T.body_nodoc(nl)] == ["leaf = KDTree.Leaf(self._nid, axis, parent, points)", "self._nid += 1", "return leaf"],
+           KD, nl, "_new_leaf body changed")
+    expect(any(u(s) == "self._nid = 0" for s in body) and any(u(s) == "self.nodes = []" for s in body), KD, fn, "self._nid = 0 / self.nodes = [] not found")
+    out.append("(* kdtree.py KDTree.__init__ *)")
+    out.append("Definition root_axis : nat := %d%%nat." % root_axis)
+    out.append("Definition leaf_ok (size max_leaf_size : nat) : bool := %s." % leaf_ok)
+    out.append("Definition next_axis (axis dim : nat) : nat := %s." % next_axis)
+    out.append("Definition less_box (b : box) (axis : nat) (sv : Z) : box := %s." % boxes["leaf_less"])
+    out.append("Definition more_box (b : box) (axis : nat) (sv : Z) : box := %s." % boxes["leaf_more"])
+
+    # ================================================================== _split_points
+    fn = T.find_def(tree, "KDTree._split_points", KD)
+    parts.append(("KDTree._split_points", T.sha(src, fn)))
+    expect([a.arg for a in fn.args.args] == ["self", "pt_idx", "axis"], KD, fn, "_split_points signature changed")
+    sb = T.body_nodoc(fn)
+    expect(len(sb) == 7, KD, fn, "_split_points has %d statements, expected 7" % len(sb))
+    expect(u(sb[0]) == "pts_ax = self.points[pt_idx, axis]", KD, sb[0], "pts_ax = self.points[pt_idx,axis] not recognised")
+    expect(u(sb[1]) == "pivot = self._find_pivot(pts_ax)", KD, sb[1], "pivot = self._find_pivot(pts_ax) not recognised")
+    expect(assign_to(sb[2], "pivot_filter"), KD, sb[2], "pivot_filter assignment not recognised")
+    goes_left = Expr(KD, {"pts_ax": ("c", "Z"), "pivot": ("pivot", "Z")}).boolean(sb[2].value)
+    expect(u(sb[3]) == "idx_less = np.extract(pivot_filter, pt_idx)" and u(sb[4]) == "idx_more = np.extract(~pivot_filter, pt_idx)",
+           KD, sb[3], "np.extract of the two sides not recognised")
+    expect(isinstance(sb[5], ast.If) and not sb[5].orelse, KD, sb[5], "degenerate-split guard not recognised")
+    degenerate = Expr(KD, {"idx_less.size": ("n_less", "nat"), "idx_more.size": ("n_more", "nat")}).boolean(sb[5].test)
+    db = sb[5].body
+    expect(len(db) == 5, KD, sb[5], "degenerate-split branch has %d statements, expected 5" % len(db))
+    expect(u(db[0]) == "order = np.argsort(pts_ax, kind='stable')", KD, db[0], "order = np.argsort(pts_ax, kind=\"stable\") not recognised")
+    expect(assign_to(db[1], "half"), KD, db[1], "half = ... not recognised")
+    rank_half, ty = Expr(KD, {"pt_idx.size": ("size", "nat"), "pts_ax.size": ("size", "nat")}).term(db[1].value)
+    expect(ty == "nat", KD, db[1], "half is not an integer expression")
+    st = db[2]
+    expect(assign_to(st, "pivot") and isinstance(st.value, ast.Subscript) and u(st.value.value) == "pts_ax"
+           and isinstance(st.value.slice, ast.Subscript) and u(st.value.slice.value) == "order", KD, st,
+           "pivot = pts_ax[order[<pos>]] not recognised")
+    rank_pos, ty = Expr(KD, {"half": ("half", "nat")}).term(st.value.slice.slice)
+    expect(ty == "nat", KD, st, "rank pivot position is not an integer expression")
+    expect(u(db[3]) == "idx_less = pt_idx[order[:half]]" and u(db[4]) == "idx_more = pt_idx[order[half:]]", KD, db[3],
+           "rank halves not `pt_idx[order[:half]]` / `pt_idx[order[half:]]`")
+    expect(u(sb[6]) in ("return (pivot, idx_less, idx_more)", "return pivot, idx_less, idx_more"), KD, sb[6], "return of _split_points changed")
+    out.append("(* kdtree.py KDTree._split_points *)")
+    out.append("Definition goes_left (c pivot : Z) : bool := %s." % goes_left)
+    out.append("Definition degenerate (n_less n_more : nat) : bool := %s." % degenerate)
+    out.append("Definition rank_half (size : nat) : nat := %s." % rank_half)
+    out.append("Definition rank_pivot_pos (half : nat) : nat := %s." % rank_pos)
+
+    # ================================================================== query
+    fn = T.find_def(tree, "KDTree.query", KD)
+    parts.append(("KDTree.query", T.sha(src, fn)))
+    expect([a.arg for a in fn.args.args] == ["self", "pt", "k"], KD, fn, "query signature changed")
+    qb = T.body_nodoc(fn)
+    expect([u(s) for s in qb[:4]] == ["found = PriorityQueue()", "n_found = 0", "queue = deque()", "queue.append(0)"], KD, fn,
+           "query prologue changed")
+    expect(len(qb) == 6 and isinstance(qb[4], ast.While) and u(qb[4].test) == "len(queue) > 0", KD, fn, "query loop not recognised")
+    wb = qb[4].body
+    expect(len(wb) == 2 and u(wb[0]) == "node_id = queue.pop()" and isinstance(wb[1], ast.If)
+           and u(wb[1].test) == "self.is_leaf(node_id)", KD, qb[4], "query loop body not `node_id = queue.pop(); if self.is_leaf(node_id)`")
+    lfb = wb[1].body
+    expect(len(lfb) == 2 and u(lfb[0]) == "leaf = self.nodes[node_id]" and isinstance(lfb[1], ast.For)
+           and u(lfb[1].target) == "idx" and u(lfb[1].iter) == "leaf.points", KD, wb[1], "leaf branch of query not recognised")
+    fb = lfb[1].body
+    expect(len(fb) == 3 and u(fb[0]) == "found.push(idx, -distance(self.points[idx], pt))" and u(fb[1]) == "n_found += 1"
+           and isinstance(fb[2], ast.While), KD, lfb[1], "candidate push not recognised")
+    knn_evict = Expr(KD, {"n_found": ("n_found", "nat"), "k": ("k", "nat")}).boolean(fb[2].test)
+    expect([u(s) for s in fb[2].body] == ["found.pop()", "n_found -= 1"], KD, fb[2], "eviction loop body changed")
+    nb = wb[1].orelse
+    expect(len(nb) == 5 and u(nb[0]) == "node = self.nodes[node_id]", KD, wb[1], "node branch of query not recognised")
+    st = nb[1]
+    expect(assign_to(st, "furthest_so_far") and isinstance(st.value, ast.IfExp) and u(st.value.body) == "-found.front.priority"
+           and u(st.value.orelse) == "float('inf')", KD, st, "furthest_so_far = -found.front.priority if .. else float('inf') not recognised")
+    knn_full = Expr(KD, {"n_found": ("n_found", "nat"), "k": ("k", "nat"), "found.empty()": ("found_empty", "bool")}).boolean(st.value.test)
+    expect(u(nb[2]) == "dist_left = self.nodes[node.left].bb.distance(pt)" and u(nb[3]) == "dist_right = self.nodes[node.right].bb.distance(pt)",
+           KD, nb[2], "child box distances not recognised")
+    fo = nb[4]
+    expect(isinstance(fo, ast.For) and u(fo.target) == "(dist, child)"
+           and u(fo.iter) == "sorted([(dist_left, node.left), (dist_right, node.right)])", KD, fo, "ordered visit of the children not recognised")
+    expect(len(fo.body) == 1 and isinstance(fo.body[0], ast.If) and not fo.body[0].orelse
+           and [u(s) for s in fo.body[0].body] == ["queue.append(child)"], KD, fo, "child push not recognised")
+    knn_visit = Expr(KD, {"furthest_so_far": ("furthest", "ext"), "dist": ("dist", "ext")}).boolean(fo.body[0].test)
+    ret = u(qb[5])
+    if ret == "return [found.pop().x for _ in range(n_found)][::-1]":
+        rev = "true"
+    elif ret == "return [found.pop().x for _ in range(n_found)]":
+        rev = "false"
+    else:
+        T.fail(KD, qb[5], "return of query not recognised")
+    il = T.find_def(tree, "KDTree.is_leaf", KD)
+    expect([u(s) for s in T.body_nodoc(il)] == ["return isinstance(self.nodes[node_id], KDTree.Leaf)"], KD, il, "is_leaf changed")
+    out.append("(* kdtree.py KDTree.query *)")
+    out.append("Definition knn_evict (n_found k : nat) : bool := %s." % knn_evict)
+    out.append("Definition knn_full (n_found k : nat) (found_empty : bool) : bool := %s." % knn_full)
+    out.append("Definition knn_visit (furthest dist : ext) : bool := %s." % knn_visit)
+    out.append("Definition knn_result_reversed : bool := %s." % rev)
+
+    # ================================================================== query_radius
+    fn = T.find_def(tree, "KDTree.query_radius", KD)
+    parts.append(("KDTree.query_radius", T.sha(src, fn)))
+    expect([a.arg for a in fn.args.args] == ["self", "pt", "r"], KD, fn, "query_radius signature changed")
+    rb = T.body_nodoc(fn)
+    expect(len(rb) == 5 and [u(s) for s in rb[:3]] == ["queue = deque()", "found_pt = []", "queue.append(0)"]
+           and isinstance(rb[3], ast.While) and u(rb[3].test) == "len(queue) > 0" and u(rb[4]) == "return found_pt", KD, fn,
+           "query_radius skeleton changed")
+    wb = rb[3].body
+    expect(len(wb) == 3 and u(wb[0]) == "node_id = queue.popleft()" and isinstance(wb[1], ast.If) and not wb[1].orelse
+           and [u(s) for s in wb[1].body] == ["continue"], KD, rb[3], "radius loop prologue not recognised")
+    rad_prune = Expr(KD, {"self.nodes[node_id].bb.distance(pt)": ("d", "ext"), "r": ("r", "ext")}).boolean(wb[1].test)
+    i2 = wb[2]
+    expect(isinstance(i2, ast.If) and u(i2.test) == "self.is_leaf(node_id)" and len(i2.body) == 2
+           and u(i2.body[0]) == "leaf = self.nodes[node_id]", KD, i2, "radius leaf branch not recognised")
+    st = i2.body[1]
+    expect(isinstance(st, ast.AugAssign) and isinstance(st.op, ast.Add) and u(st.target) == "found_pt"
+           and isinstance(st.value, ast.ListComp) and u(st.value.elt) == "idx" and len(st.value.generators) == 1
+           and u(st.value.generators[0].target) == "idx" and u(st.value.generators[0].iter) == "leaf.points"
+           and len(st.value.generators[0].ifs) == 1, KD, st, "radius leaf scan not recognised")
+    rad_keep = Expr(KD, {"distance(self.points[idx], pt)": ("d", "Z"), "r": ("r", "Z")}).boolean(st.value.generators[0].ifs[0])
+    expect([u(s) for s in i2.orelse] == ["node = self.nodes[node_id]", "queue.append(node.left)", "queue.append(node.right)"], KD, i2,
+           "radius node branch not recognised")
+    out.append("(* kdtree.py KDTree.query_radius *)")
+    out.append("Definition rad_prune (d r : ext) : bool := %s." % rad_prune)
+    out.append("Definition rad_keep (d r : Z) : bool := %s." % rad_keep)
+
+    # ================================================================== AABB.distance, geometry.norm / distance
+    asrc, atree = T.load(AB)
+    fn = T.find_def(atree, "AABB.distance", AB)
+    parts.append(("AABB.distance", T.sha(asrc, fn)))
+    expect([a.arg for a in fn.args.args] == ["self", "pt", "which"] and [u(d) for d in fn.args.defaults] == ["'l2'"], AB, fn,
+           "AABB.distance signature changed")
+    ab = T.body_nodoc(fn)
+    vec = [s for s in ab if assign_to(s, "vec")]
+    expect(len(vec) == 1 and u(ab[-1]) == "return norm(vec, which)" and ab[-2] is vec[0], AB, fn, "AABB.distance does not end with vec = ...; return norm(vec,which)")
+    for s in ab[:-2]:
+        expect(u(s) == "pt = Vec(pt)" or (isinstance(s, ast.If) and all(isinstance(x, ast.Raise) for x in s.body) and not s.orelse)
+               or u(s).startswith("check_argument("), AB, s, "unexpected statement in AABB.distance")
+    box_excess, ty = Expr(AB, {"self.mini": ("mini", "ext"), "self.maxi": ("maxi", "ext"), "pt": ("pt", "Z")}).term(vec[0].value)
+    expect(ty == "ext", AB, vec[0], "vec is not a box excess")
+    for prop, fld in (("mini", "_p1"), ("maxi", "_p2")):
+        pf = T.find_def(atree, "AABB." + prop, AB)
+        expect([u(s) for s in T.body_nodoc(pf)] == ["return self.%s" % fld], AB, pf, "AABB.%s changed" % prop)
+    ini = T.find_def(atree, "AABB.__init__", AB)
+    ib = [u(s) for s in T.body_nodoc(ini)]
+    ok1 = ib[0] in ("self._p1 = Vec(p_min)", "self._p1 = Vec(np.array(p_min, dtype=float))")
+    ok2 = ib[1] in ("self._p2 = Vec(p_max)", "self._p2 = Vec(np.array(p_max, dtype=float))")
+    expect(ok1 and ok2 and [a.arg for a in ini.args.args] == ["self", "p_min", "p_max"], AB, ini,
+           "AABB.__init__ does not store (p_min, p_max) as (_p1, _p2)")
+    inf = T.find_def(atree, "AABB.infinite", AB)
+    expect([u(s) for s in T.body_nodoc(inf)] == ["return AABB(np.full(dim, -np.inf), np.full(dim, np.inf))"], AB, inf, "AABB.infinite changed")
+    gsrc, gtree = T.load(GE)
+    nf = T.find_def(gtree, "norm", GE)
+    parts.append(("geometry.norm", T.sha(gsrc, nf)))
+    nbody = T.body_nodoc(nf)
+    ok = False
+    for s in nbody:
+        if isinstance(s, ast.If) and u(s.test) == "which == 'l2'" and [u(x) for x in s.body] == ["return np.sqrt(np.dot(x.flatten(), x.flatten()))"]:
+            ok = True
+    expect(ok and [a.arg for a in nf.args.args] == ["x", "which"] and [u(d) for d in nf.args.defaults] == ["'l2'"], GE, nf,
+           "norm: the l2 branch is not sqrt(dot(x,x))")
+    df = T.find_def(gtree, "distance", GE)
+    parts.append(("geometry.distance", T.sha(gsrc, df)))
+    expect([u(s) for s in T.body_nodoc(df)] == ["return norm(B - A, which)"] and [a.arg for a in df.args.args] == ["A", "B", "which"]
+           and [u(d) for d in df.args.defaults] == ["'l2'"], GE, df, "distance is not norm(B-A, which)")
+    out.append("(* aabb.py AABB.distance *)")
+    out.append("Definition box_excess (mini maxi : ext) (pt : Z) : ext := %s." % box_excess)
+
+    text = T.header("C11: decision expressions and plumbing of KDTree / AABB.distance", parts)
+    text += "From Coq Require Import ZArith List Bool.\nImport ListNotations.\nRequire Import MV.C11.Ext.\nOpen Scope Z_scope.\n\n"
+    text += "\n".join(out) + "\n"
+    return {"C11/Gen.v": text}
